@@ -32,7 +32,7 @@ protocol and evidence are as designed in section 2. Deviations, all in the direc
   evaluations, both checks gained a `pre` field: the same / other expressions are evaluated first by fresh engines,
   so "the result must not depend on what was evaluated before" is part of every case and a finding is reproducible
   from its replay file alone.
-* **No atheris campaigns** (section 7).
+* **Coverage-guided stage** built late and in a generic form (section 7): libFuzzer over the strategies' choice sequences, thorough tier only.
 * **Hooks:** none were needed; `MANIFEST.hooks.source_commits` is empty.
 """
 
